@@ -4,9 +4,13 @@ import (
 	"bytes"
 	"encoding/json"
 	"errors"
+	"fmt"
+	"io"
 	"os"
 	"path/filepath"
+	"sync/atomic"
 	"testing"
+	"time"
 
 	"github.com/lightninglabs/lightning-node-connect/mailbox"
 
@@ -236,4 +240,128 @@ func TestC16Frag(t *testing.T) {
 			}
 		}
 	}
+	// pipelined: each side writes its first record right behind its last
+	// handshake act, and the reads of either side are held back a moment
+	// after its first write, so that what a Read returns spans the boundary
+	// between the peer's last act and its first record (a read-ahead inside
+	// the handshake would swallow the head of the record)
+	for _, pattern := range []string{"XX", "KK"} {
+		for _, k := range []int{0, 1, 5, 16, 64, 100, 1000} {
+			for _, L := range []int{0, 17, 3000} {
+				p := defaultHs()
+				p.auth = streamOf(40)
+				if pattern == "KK" {
+					p.cliRemote = p.srvKey.PubKey()
+					p.srvRemote = p.cliKey.PubKey()
+				}
+				a, b := mitm.NewPair()
+				frag := func() int { return k }
+				a.Frag, b.Frag = frag, frag
+				ca, cb := &lateReader{ReadWriter: a}, &lateReader{ReadWriter: b}
+				res := hsResult{}
+				res.cd = mailbox.NewConnData(ecdhKey(p.cliKey), p.cliRemote, p.cliEnt, nil, nil, nil)
+				res.sd = mailbox.NewConnData(ecdhKey(p.srvKey), p.srvRemote, p.srvEnt, p.auth, nil, nil)
+				var err error
+				res.cm, err = mailbox.NewBrontideMachine(&mailbox.BrontideMachineConfig{
+					ConnData: res.cd, Initiator: true, HandshakePattern: res.cd.HandshakePattern(),
+					MinHandshakeVersion: p.cMin, MaxHandshakeVersion: p.cMax})
+				if err == nil {
+					res.sm, err = mailbox.NewBrontideMachine(&mailbox.BrontideMachineConfig{
+						ConnData: res.sd, Initiator: false, HandshakePattern: res.sd.HandshakePattern(),
+						MinHandshakeVersion: p.sMin, MaxHandshakeVersion: p.sMax})
+				}
+				line := map[string]any{"op": "hs", "pattern": pattern, "frag": k, "pipelined": 1, "auth": 40,
+					"L": L, "newErr": "", "cErr": "", "sErr": "", "payloadOK": 1}
+				if err != nil {
+					line["newErr"] = err.Error()
+					line["recOK"] = 0
+					enc.Encode(line)
+					continue
+				}
+				msgC, msgS := streamOf(L), streamOf(L+3)
+				type out struct {
+					hs  error
+					got []byte
+					err error
+				}
+				side := func(m *mailbox.Machine, rw io.ReadWriter, mine []byte) out {
+					var o out
+					if o.hs = m.DoHandshake(rw); o.hs != nil {
+						return o
+					}
+					if o.err = m.WriteMessage(mine); o.err != nil {
+						return o
+					}
+					if _, o.err = m.Flush(rw); o.err != nil {
+						return o
+					}
+					o.got, o.err = m.ReadMessage(rw)
+					return o
+				}
+				sch, cch := make(chan out, 1), make(chan out, 1)
+				go func() { sch <- side(res.sm, cb, msgS) }()
+				go func() { cch <- side(res.cm, ca, msgC) }()
+				var oc, os2 out
+				tmo := time.After(4 * time.Second)
+				for got := 0; got < 2; {
+					select {
+					case oc = <-cch:
+						got++
+						cch = nil
+					case os2 = <-sch:
+						got++
+						sch = nil
+					case <-tmo:
+						// a side that waits for bytes that never come
+						if cch != nil {
+							oc.err = fmt.Errorf("initiator did not finish")
+						}
+						if sch != nil {
+							os2.err = fmt.Errorf("responder did not finish")
+						}
+						a.Close()
+						b.Close()
+						got = 2
+					}
+				}
+				es := func(e error) string {
+					if e == nil {
+						return ""
+					}
+					return e.Error()
+				}
+				line["cErr"], line["sErr"] = es(oc.hs), es(os2.hs)
+				recOK := 0
+				if oc.err == nil && os2.err == nil && bytes.Equal(oc.got, msgS) && bytes.Equal(os2.got, msgC) {
+					recOK = 1
+				}
+				line["recOK"] = recOK
+				line["recErr"] = es(oc.err) + "|" + es(os2.err)
+				enc.Encode(line)
+			}
+		}
+	}
+}
+
+// lateReader holds the next Read back for a moment once the side has written
+// something (its peer, which answers at once, has by then written whatever it
+// is going to write next).
+type lateReader struct {
+	io.ReadWriter
+	wrote atomic.Bool
+}
+
+func (l *lateReader) Write(p []byte) (int, error) {
+	n, err := l.ReadWriter.Write(p)
+	l.wrote.Store(true)
+	return n, err
+}
+
+func (l *lateReader) Read(p []byte) (int, error) {
+	// only the first Read after a Write waits (a read of one byte at a time
+	// would otherwise take for ever)
+	if l.wrote.CompareAndSwap(true, false) {
+		time.Sleep(15 * time.Millisecond)
+	}
+	return l.ReadWriter.Read(p)
 }
